@@ -222,6 +222,56 @@ vproof! {12, fn c11_value_write_bool() { value_write::<2>(); }}
 vproof! {12, fn c11_value_write_float() { value_write::<3>(); }}
 vproof! {12, fn c11_value_write_double() { value_write::<4>(); }}
 
+// ---------------------------------------------------------------------------------- update stage kernel: which features survive, in which order
+// VectorTileLayer::filter_map_properties is what vectortiles_update_properties runs on the named layer. Features here carry
+// no tags (so the property tables stay empty and the table code is not the subject); the closure keeps or removes by call
+// order according to a symbolic mask. Retained features must keep id, geometry type, geometry bytes and their ORDER.
+fn filter_map_order<const N: usize>() {
+	use super::feature::VectorTileFeature;
+	use super::geometry_type::GeomType;
+	use crate::GeoProperties;
+	use std::cell::Cell;
+	let ids: [Option<u64>; N] = kani::any();
+	let keep: [bool; N] = kani::any();
+	let mut layer = VectorTileLayer::new(String::new(), 4096, 2);
+	let mut i = 0;
+	while i < N {
+		let gt = match i % 3 { 0 => GeomType::MultiPoint, 1 => GeomType::MultiLineString, _ => GeomType::MultiPolygon };
+		layer.features.push(VectorTileFeature { id: ids[i], tag_ids: Vec::new(), geom_type: gt, geom_data: Blob::from(vec![i as u8]) });
+		i += 1;
+	}
+	let calls = Cell::new(0usize);
+	let r = ok(layer.filter_map_properties(|p: GeoProperties| {
+		let k = calls.get();
+		calls.set(k + 1);
+		if k < N && keep[k] { Some(p) } else { std::mem::forget(p); None }
+	}));
+	assert!(r.is_some(), "filter_map_properties fails on a layer without tags");
+	assert!(calls.get() == N, "the filter is not asked exactly once per feature");
+	// expected: the kept features, in their original order
+	let mut want = 0usize;
+	let mut j = 0usize;
+	let mut i = 0;
+	while i < N {
+		if keep[i] {
+			assert!(j < layer.features.len(), "a retained feature is missing");
+			let f = &layer.features[j];
+			assert!(f.id == ids[i], "retained features changed order or id");
+			assert!(f.geom_data.len() == 1 && f.geom_data.as_slice()[0] == i as u8, "geometry bytes of a retained feature changed");
+			assert!(f.geom_type as u8 == (i % 3 + 1) as u8, "geometry type of a retained feature changed");
+			assert!(f.tag_ids.is_empty());
+			j += 1;
+			want += 1;
+		}
+		i += 1;
+	}
+	assert!(layer.features.len() == want, "a removed feature is still there");
+	kani::cover!(N >= 3 && !keep[0] && keep[N - 1] && keep[N - 2], "a removed feature followed by retained ones");
+	std::mem::forget(layer);
+}
+vproof! {8, fn c11_filter_map_order_3() { filter_map_order::<3>(); }}
+vproof! {8, fn c11_filter_map_order_4() { filter_map_order::<4>(); }}
+
 // ---------------------------------------------------------------------------------- layer: ground truth
 const KEY_POOL: [u8; 2] = [b'a', b'b'];
 const VAL_POOL: [u8; 2] = [7, 9];
